@@ -895,3 +895,17 @@ def resolve_calls(ctx, term, pred, depth=2):
                 return resolve_calls(ctx, cs[0][1], pred, depth - 1)
         return None
     return mir.subst(term, f)
+
+
+def instrument_feeds_own(ctx):
+    """InstrumentState::update_from_trade hands the fill to its own position manager, feeds the closed record (if any) to its own
+    tear sheet, and returns that record unchanged - nothing is dropped or altered on the way out (shared by C02 and C16)"""
+    IS = "barter::engine::state::instrument::InstrumentState"
+    b = ctx.fibody(name="update_from_trade", self_adt=IS, trait="")
+    pm = "PositionManager::update_from_trade(self.position, trade)"
+    ups = [(bi, render(tm), canon_guard(b.guard(bi))) for bi, t, tm in b.real_calls() if mir.short(tm[1]) == "TearSheetGenerator::update_from_position"]
+    ok = len(ups) == 1 and ups[0][1] == "TearSheetGenerator::update_from_position(self.tear_sheet, %s.as:Some.0)" % pm and \
+        ups[0][2] == "(%s is Some)" % pm and render(b.return_term()) == pm
+    ctx.check("InstrumentState::update_from_trade", ok,
+              "the closed-position record of this instrument's position manager feeds this instrument's own tear sheet, exactly "
+              "when a position was closed, and is returned unchanged", got=[x[1:] for x in ups] + [render(b.return_term())[:120]], key="feeds-own")
